@@ -33,7 +33,7 @@ import vlib
 
 PUPPET_SRC = vlib.VERIF / "puppets" / "c08_puppet.rs"
 SCRATCH = vlib.WORK / "c08"
-WATCHDOG = 10.0          # seconds per command
+WATCHDOG = 30.0          # seconds per command (an idle 16-core copy of the sandbox needed 10-30 s for a few async / zero-poison queries: slow is not hung)
 UTF8 = "é"
 
 RULE = ("every TLC-enumerated console line / command sequence / DAP message / message sequence / (poison pattern, "
